@@ -51,7 +51,7 @@ func C16(tier string) int {
 	sp.Bounds["basm_sources"] = len(emitted) + rejected
 	sp.Bounds["basm_sources_rejected_by_the_front_end"] = rejected
 	sp.Assumptions = append(sp.Assumptions,
-		"part (b): sources of a generated family (register indices up to r8, 0-3 inputs/outputs, 3-17 ROM lines, jumps to the last line, mov/inc/dec/add/cpy/clr/jz/j/i2rw/r2owa, register sizes 8/16/32) are assembled NATIVELY by the real basm front-end; for every emitted processor one simulator step from ANY pc inside the ROM and ANY register/port/flag state is decided panic-free (no index outside ROM, registers, ports, opcode list) with pc' <= len(ROM); word width, opcode order and decodability, and the bond graph (one link slot per internal input, every endpoint the port counts require exactly once, links in range, every attachment the source declares present; attachments written cpu-side first and bm-side first alternate) are checked on the concrete emitted machine - the front-end run is a sample of sources, not a solver quantification. bondgo, neuralbond and bmqsim front-ends (floating-point opcodes) are outside")
+		"part (b): sources of a generated family (register indices up to r8, 0-3 inputs/outputs, 3-17 ROM lines, jumps to the last line, mov/inc/dec/add/cpy/clr/jz/j/i2rw/r2owa, register sizes 8/16/32) are assembled NATIVELY by the real basm front-end; for every emitted processor one simulator step from ANY pc inside the ROM and ANY register/port/flag state is decided panic-free (no index outside ROM, registers, ports, opcode list) with pc' <= len(ROM); word width, opcode order and decodability, and the bond graph (one link slot per internal input, every endpoint the port counts require exactly once, links in range, every attachment the source declares present; attachments written cpu-side first and bm-side first alternate) are checked on the concrete emitted machine - the front-end run is a sample of sources, not a solver quantification. Sources with a ROM data section (code + data words around powers of two) and hybrid ROM/RAM code are checked structurally only (word width, opcode list, ROM + data fit the address space, bond graph); bondgo, neuralbond and bmqsim front-ends (floating-point opcodes) are outside")
 	p := LoadProgram(sp.LoadPkgs, sp.Harnesses...)
 	loadS := time.Since(t0).Seconds()
 	outs := RunFamily(p, sp.Configs, sp.Opts)
@@ -128,6 +128,43 @@ func c16Source(seed, rsize, rmax, nin, nout, nlines int, bmFirst bool) string {
 	return sb.String()
 }
 
+// c16DataSource: a CP with a ROM data section; code lines + data words are chosen around powers of two
+func c16DataSource(rsize, ncode, ndata int) string {
+	var sb strings.Builder
+	sb.WriteString("%section code1 .romtext\n        entry _start\n_start:\n        mov r2, 17\n        clr r0\n_loop:\n        mov r1, rom:[r0]\n") // the immediate makes the word at least 8 bits wide, which data sections require
+	for i := 0; i < ncode-4; i++ {
+		if i%2 == 0 {
+			sb.WriteString("        r2o r1, o0\n")
+		} else {
+			sb.WriteString("        inc r0\n")
+		}
+	}
+	sb.WriteString("        j _loop\n%endsection\n%section data1 .romdata\n        tab db ")
+	for i := 0; i < ndata; i++ {
+		if i > 0 {
+			sb.WriteString(", ")
+		}
+		fmt.Fprintf(&sb, "0x%02x", (i*7+3)%256)
+	}
+	sb.WriteString("\n%endsection\n%meta cpdef cpu romcode: code1, romdata: data1, execmode: ha\n")
+	sb.WriteString("%meta ioatt out0 cp: cpu, index:0, type:output\n%meta ioatt out0 cp: bm, index:0, type:output\n")
+	fmt.Fprintf(&sb, "%%meta bmdef global registersize:%d\n", rsize)
+	return sb.String()
+}
+
+// c16HybridSource: a CP with ROM code and RAM code (execmode hy) whose opcode sets overlap or not
+func c16HybridSource(rsize int, overlap bool) string {
+	ram := "        inc r1\n        dec r0\n        j _start2\n"
+	if !overlap {
+		ram = "        dec r1\n        dec r0\n        dec r1\n"
+	}
+	return "%section code1 .romtext\n        entry _start\n_start:\n        clr r0\n        inc r0\n        r2o r0, o0\n        j _start\n%endsection\n" +
+		"%section code2 .ramtext\n        entry _start2\n_start2:\n" + ram + "%endsection\n" +
+		"%meta cpdef cpu romcode: code1, ramcode: code2, execmode: hy\n" +
+		"%meta ioatt out0 cp: cpu, index:0, type:output\n%meta ioatt out0 cp: bm, index:0, type:output\n" +
+		fmt.Sprintf("%%meta bmdef global registersize:%d\n", rsize)
+}
+
 func c16Emitted(tier string, hp, hb *Harness) (cfgs []Config, rejected int, errs []string) {
 	if err := BuildNative(); err != nil {
 		return nil, 0, []string{err.Error()}
@@ -149,13 +186,36 @@ func c16Emitted(tier string, hp, hb *Harness) (cfgs []Config, rejected int, errs
 	work := filepath.Join(VerifDir, ".work", fmt.Sprintf("c16-%d", os.Getpid()))
 	os.MkdirAll(work, 0o755)
 	defer os.RemoveAll(work)
+	// further source kinds: ROM data sections with code+data around powers of two, and hybrid ROM/RAM code
+	type extra struct{ name, text string }
+	var extras []extra
+	for _, tot := range []int{8, 9, 16, 17} {
+		for _, ncode := range []int{5, 6} {
+			extras = append(extras, extra{fmt.Sprintf("ROM data section: %d code lines + %d data words", ncode, tot-ncode), c16DataSource([]int{8, 16}[tot%2], ncode, tot-ncode)})
+		}
+	}
+	extras = append(extras, extra{"hybrid: ROM and RAM code share opcodes", c16HybridSource(8, true)}, extra{"hybrid: ROM and RAM code with disjoint opcodes", c16HybridSource(16, false)})
+	for _, e := range extras {
+		fam = append(fam, src{rsize: -1, nlines: len(fam)})
+		_ = e
+	}
+	nbase := len(fam) - len(extras)
 	for i, s := range fam {
 		bmFirst := i%2 == 1
-		text := c16Source(Seed()*1000+i, s.rsize, s.rmax, s.nin, s.nout, s.nlines, bmFirst)
+		var text string
+		if i >= nbase {
+			text = extras[i-nbase].text
+			s = src{nin: 0, nout: 1}
+		} else {
+			text = c16Source(Seed()*1000+i, s.rsize, s.rmax, s.nin, s.nout, s.nlines, bmFirst)
+		}
 		f := filepath.Join(work, fmt.Sprintf("s%d.basm", i))
 		os.WriteFile(f, []byte(text), 0o644)
 		out, err := Native("basm", f)
 		name := fmt.Sprintf("basm source #%d (Rsize=%d, registers up to r%d, %d inputs, %d outputs, %d lines)", i, s.rsize, s.rmax, s.nin, s.nout, s.nlines)
+		if i >= nbase {
+			name = fmt.Sprintf("basm source #%d (%s)", i, extras[i-nbase].name)
+		}
 		if err != nil {
 			errs = append(errs, name+": "+err.Error())
 			continue
@@ -220,7 +280,7 @@ func c16Emitted(tier string, hp, hb *Harness) (cfgs []Config, rejected int, errs
 			}
 			at := func(k string) int { v, _ := strconv.Atoi(kv[k]); return v }
 			cfgs = append(cfgs, Config{Name: name + " " + strings.Fields(line)[0] + strings.Fields(line)[1] + " ops=" + kv["ops"], Func: "zzC16Emitted", Harness: hp,
-				Args: []Arg{I(at("rsize")), I(at("R")), I(at("N")), I(at("M")), I(at("L")), I(at("O")), I(at("wordsize")), S(kv["ops"]), S(kv["rom"])}})
+				Args: []Arg{I(at("rsize")), I(at("R")), I(at("N")), I(at("M")), I(at("L")), I(at("O")), I(at("wordsize")), S(kv["ops"]), S(kv["rom"]), I(at("data")), S(kv["mode"])}})
 		}
 	}
 	if rejected*2 > len(fam) {
